@@ -1,314 +1,284 @@
 /-
-Helper lemmas for C20 (3/3): bundled single steps, one generation, the generation loop,
-one replicate, the replicate loop, `evolve`.
+Helper lemmas for C20: from the dataflow conditions of `WellFormed` (on tokens) to the Spec of the
+recorded trace (on references): one generation, the generation loop.
 -/
-import PybropsModel.Lemmas.ProgramSteps
+import PybropsModel.Lemmas.ProgramSymSound
 set_option autoImplicit false
 set_option linter.unusedSectionVars false
+set_option linter.unusedVariables false
 
 namespace Program
 section
 variable {σ V : Type} [DecidableEq V]
-variable {S : List Ref} {V0 : List (Option V)} {ops : Ops σ V} {cfg : Cfg V}
-
-/-- what is known about a recorded event -/
-structure IsEv (V0 : List (Option V)) (e : Event V) (k : EvKind) (t : Nat) (rp : Int)
-    (as rs : List Ref) : Prop where
-  kind : e.kind = k
-  t : e.t = t
-  rep : e.rep = rp
-  start : e.startVals = V0
-  args : e.args = as
-  argVals : e.argVals.length = as.length
-  rets : e.rets = rs
-  retVals : e.retVals.length = rs.length
-
-/-! ### bundled steps (existential form keeps the goals small) -/
-
-theorem step_newMisc {st : State σ V} (g : Good S V0 st) :
-    ∃ st' n, execS ops cfg .newMisc st = st' ∧ Good S V0 st' ∧ st'.trace = st.trace ∧ st'.t = st.t ∧
-      st'.rep = st.rep ∧ st'.regs .misc = some n ∧ (∀ r, r ≠ Reg.misc → st'.regs r = st.regs r) := by
-  refine ⟨_, st.heap.length, execS_newMisc g.nbad, g.alloc _ _, rfl, rfl, rfl, ?_, ?_⟩
-  · exact setReg_same st.regs Reg.misc (some st.heap.length)
-  · intro r hr; exact setReg_other st.regs Reg.misc r (some st.heap.length) hr
-
-theorem step_call {st : State σ V} (g : Good S V0 st) (hR : Respects S ops) (k : OpK)
-    (args rets : List Reg) (as : List Ref) (hres : args.map st.regs = as.map some)
-    (hnd : rets.Nodup) (har : rets.length = arity k) :
-    ∃ st' e rs, execS ops cfg (.call k args rets) st = st' ∧ Good S V0 st' ∧
-      st'.trace = st.trace ++ [e] ∧ st'.t = st.t ∧ st'.rep = st.rep ∧
-      rets.map st'.regs = rs.map some ∧ (∀ r, r ∉ rets → st'.regs r = st.regs r) ∧
-      rs.length = rets.length ∧ IsEv V0 e (.op k) st.t st.rep as rs := by
-  have hres' := resolve_some _ _ _ hres
-  have has := g.args_ok hres'
-  obtain ⟨_, _, _, h4⟩ := hR.op k st.ost st.heap as st.t cfg.tmax g.svalid has
-  have hlen : (ops.op k st.ost st.heap as st.t cfg.tmax).2.2.length = rets.length := by rw [h4, har]
-  refine ⟨_, callEvent ops cfg k as st, (ops.op k st.ost st.heap as st.t cfg.tmax).2.2,
-    execS_call g.nbad k args rets as hres' hlen, g.call hR k rets as has, rfl, rfl, rfl, ?_, ?_, hlen, ?_⟩
-  · exact map_assign_same _ _ _ hnd hlen.symm
-  · intro r hr; exact assign_other r _ _ _ hr
-  · exact ⟨rfl, rfl, rfl, g.startVals, rfl, vals_length _ _, rfl, vals_length _ _⟩
-
-theorem step_log {st : State σ V} (g : Good S V0 st) (hR : Respects S ops) (k : LogK) (guarded : Bool)
-    (args : List Reg) (as : List Ref) (hres : args.map st.regs = as.map some)
-    (hg : (guarded && !cfg.loginit) = false) :
-    ∃ st' e, execS ops cfg (.log k guarded args) st = st' ∧ Good S V0 st' ∧
-      st'.trace = st.trace ++ [e] ∧ st'.t = st.t ∧ st'.rep = st.rep ∧ st'.regs = st.regs ∧
-      IsEv V0 e (.log k) st.t st.rep as [] := by
-  have hres' := resolve_some _ _ _ hres
-  have has := g.args_ok hres'
-  exact ⟨_, logEvent cfg k as st, execS_log g.nbad k guarded args as hres' hg, g.log hR k as has, rfl, rfl,
-    rfl, rfl, ⟨rfl, rfl, rfl, g.startVals, rfl, vals_length _ _, rfl, rfl⟩⟩
-
-theorem step_tick {st : State σ V} (g : Good S V0 st) :
-    ∃ st', execS ops cfg .tick st = st' ∧ Good S V0 st' ∧ st'.trace = st.trace ∧ st'.t = st.t + 1 ∧
-      st'.rep = st.rep ∧ st'.regs = st.regs :=
-  ⟨_, execS_tick g.nbad, g.tick, rfl, rfl, rfl, rfl⟩
+variable {S : List Ref} {V0 : List (Option (View V))} {ops : Ops σ V} {cfg : Cfg V}
 
 /-! ### reading a recorded event -/
 
-theorem IsEv.argItems_take {e : Event V} {k : EvKind} {t : Nat} {rp : Int} {as rs : List Ref}
-    (h : IsEv V0 e k t rp as rs) (n : Nat) : (e.argItems.take n).map Prod.fst = as.take n := by
+theorem argItems_take_fst (e : Event (View V)) (hl : e.argVals.length = e.args.length) (n : Nat) :
+    (e.argItems.take n).map Prod.fst = e.args.take n := by
   unfold Event.argItems
-  rw [items_take, items_fst, h.args]
-  simp [h.args, h.argVals]
+  rw [items_take, items_fst]
+  simp [hl]
 
-theorem IsEv.retItems_fst {e : Event V} {k : EvKind} {t : Nat} {rp : Int} {as rs : List Ref}
-    (h : IsEv V0 e k t rp as rs) : e.retItems.map Prod.fst = rs := by
+theorem retItems_fst (e : Event (View V)) (hl : e.retVals.length = e.rets.length) :
+    e.retItems.map Prod.fst = e.rets := by
   unfold Event.retItems
-  rw [items_fst, h.rets]
-  rw [h.rets, h.retVals]
+  rw [items_fst]
+  rw [hl]
 
-theorem IsEv.retItems_length {e : Event V} {k : EvKind} {t : Nat} {rp : Int} {as rs : List Ref}
-    (h : IsEv V0 e k t rp as rs) : e.retItems.length = rs.length := by
+theorem retItems_length (e : Event (View V)) (hl : e.retVals.length = e.rets.length) :
+    e.retItems.length = e.rets.length := by
   unfold Event.retItems
-  rw [items_length, h.rets]
-  rw [h.rets, h.retVals]
-
-theorem IsEv.evOk {e : Event V} {k : EvKind} {t : Nat} {rp : Int} {as rs : List Ref}
-    (h : IsEv V0 e k t rp as rs) : evOk V0 k t e = true := by
-  simp [Program.evOk, h.kind, h.t, h.start]
-
-theorem take_append_one {α : Type} (l : List α) (x : α) (n : Nat) (h : l.length = n) :
-    (l ++ [x]).take n = l := by
-  subst h; simp
+  rw [items_length]
+  rw [hl]
 
 /-- assembling the check of one generation from the eight recorded events -/
-theorem checkGen_intro (R : Item V → Item V → Bool) (hR : ReflOnRefs R) (t : Nat) (rp : Int)
-    (cur c1 c2 c3 c4 : List Ref) (m n1 n4 n7 n10 : Ref)
-    (given : List (Item V)) (hgiven : given.map Prod.fst = cur)
-    (l0 : cur.length = 5) (l1 : c1.length = 5) (l2 : c2.length = 5) (l3 : c3.length = 5) (l4 : c4.length = 5)
-    (e1 e2 e3 e4 e5 e6 e7 e8 : Event V)
-    (h1 : IsEv V0 e1 (.op .pselect) t rp (cur ++ [n1]) (m :: c1))
-    (h2 : IsEv V0 e2 (.log .pselect) t rp (m :: c1 ++ [n1]) [])
-    (h3 : IsEv V0 e3 (.op .mate) t rp (m :: c1 ++ [n4]) c2)
-    (h4 : IsEv V0 e4 (.log .mate) t rp (m :: c2 ++ [n4]) [])
-    (h5 : IsEv V0 e5 (.op .evaluate) t rp (c2 ++ [n7]) c3)
-    (h6 : IsEv V0 e6 (.log .evaluate) t rp (c3 ++ [n7]) [])
-    (h7 : IsEv V0 e7 (.op .sselect) t rp (c3 ++ [n10]) c4)
-    (h8 : IsEv V0 e8 (.log .sselect) t rp (c4 ++ [n10]) [])
-    (rest : List (Event V)) :
-    checkGen R V0 t given (e1 :: e2 :: e3 :: e4 :: e5 :: e6 :: e7 :: e8 :: rest) = some (e7.retItems, rest) := by
-  have a1 : handed R given (e1.argItems.take 5) = true :=
-    handed_of_fst R hR _ _ (by rw [hgiven, h1.argItems_take, take_append_one _ _ _ l0])
-  have a2 : handed R e1.retItems (e2.argItems.take 6) = true :=
+theorem checkGen_intro (R : Item (View V) → Item (View V) → Bool) (hR : ReflOnRefs R) (t : Nat)
+    (given : List (Item (View V))) (cur : List Ref) (hgiven : given.map Prod.fst = cur)
+    (c1 c2 c3 c4 c5 c6 c7 c8 : Event (View V))
+    (k1 : evOk V0 (.op .pselect) t c1 = true) (k2 : evOk V0 (.log .pselect) t c2 = true)
+    (k3 : evOk V0 (.op .mate) t c3 = true) (k4 : evOk V0 (.log .mate) t c4 = true)
+    (k5 : evOk V0 (.op .evaluate) t c5 = true) (k6 : evOk V0 (.log .evaluate) t c6 = true)
+    (k7 : evOk V0 (.op .sselect) t c7 = true) (k8 : evOk V0 (.log .sselect) t c8 = true)
+    (v1 : c1.argVals.length = c1.args.length) (v2 : c2.argVals.length = c2.args.length)
+    (v3 : c3.argVals.length = c3.args.length) (v4 : c4.argVals.length = c4.args.length)
+    (v5 : c5.argVals.length = c5.args.length) (v6 : c6.argVals.length = c6.args.length)
+    (v7 : c7.argVals.length = c7.args.length) (v8 : c8.argVals.length = c8.args.length)
+    (r1 : c1.retVals.length = c1.rets.length) (r3 : c3.retVals.length = c3.rets.length)
+    (r5 : c5.retVals.length = c5.rets.length) (r7 : c7.retVals.length = c7.rets.length)
+    (a1 : c1.args.take 5 = cur) (a2 : c2.args.take 6 = c1.rets) (a3 : c3.args.take 6 = c1.rets)
+    (a4 : c4.args.take 6 = c1.rets.take 1 ++ c3.rets) (a5 : c5.args.take 5 = c3.rets)
+    (a6 : c6.args.take 5 = c5.rets) (a7 : c7.args.take 5 = c5.rets) (a8 : c8.args.take 5 = c7.rets)
+    (l1 : c1.rets.length = 6) (l3 : c3.rets.length = 5) (l5 : c5.rets.length = 5) (l7 : c7.rets.length = 5)
+    (rest : List (Event (View V))) :
+    checkGen R V0 t given (c1 :: c2 :: c3 :: c4 :: c5 :: c6 :: c7 :: c8 :: rest) = some (c7.retItems, rest) := by
+  have h1 : handed R given (c1.argItems.take 5) = true :=
+    handed_of_fst R hR _ _ (by rw [hgiven, argItems_take_fst _ v1, a1])
+  have h2 : handed R c1.retItems (c2.argItems.take 6) = true :=
+    handed_of_fst R hR _ _ (by rw [retItems_fst _ r1, argItems_take_fst _ v2, a2])
+  have h3 : handed R c1.retItems (c3.argItems.take 6) = true :=
+    handed_of_fst R hR _ _ (by rw [retItems_fst _ r1, argItems_take_fst _ v3, a3])
+  have h4 : handed R (c1.retItems.take 1 ++ c3.retItems) (c4.argItems.take 6) = true :=
     handed_of_fst R hR _ _ (by
-      rw [h1.retItems_fst, h2.argItems_take, take_append_one _ _ _ (by simp [l1])])
-  have a3 : handed R e1.retItems (e3.argItems.take 6) = true :=
-    handed_of_fst R hR _ _ (by
-      rw [h1.retItems_fst, h3.argItems_take, take_append_one _ _ _ (by simp [l1])])
-  have a4 : handed R (e1.retItems.take 1 ++ e3.retItems) (e4.argItems.take 6) = true :=
-    handed_of_fst R hR _ _ (by
-      rw [List.map_append, List.map_take, h1.retItems_fst, h3.retItems_fst, h4.argItems_take,
-        take_append_one _ _ _ (by simp [l2])]
-      simp)
-  have a5 : handed R e3.retItems (e5.argItems.take 5) = true :=
-    handed_of_fst R hR _ _ (by rw [h3.retItems_fst, h5.argItems_take, take_append_one _ _ _ l2])
-  have a6 : handed R e5.retItems (e6.argItems.take 5) = true :=
-    handed_of_fst R hR _ _ (by rw [h5.retItems_fst, h6.argItems_take, take_append_one _ _ _ l3])
-  have a7 : handed R e5.retItems (e7.argItems.take 5) = true :=
-    handed_of_fst R hR _ _ (by rw [h5.retItems_fst, h7.argItems_take, take_append_one _ _ _ l3])
-  have a8 : handed R e7.retItems (e8.argItems.take 5) = true :=
-    handed_of_fst R hR _ _ (by rw [h7.retItems_fst, h8.argItems_take, take_append_one _ _ _ l4])
-  have b1 : e1.retItems.length = 6 := by rw [h1.retItems_length]; simp [l1]
-  have b3 : e3.retItems.length = 5 := by rw [h3.retItems_length, l2]
-  have b5 : e5.retItems.length = 5 := by rw [h5.retItems_length, l3]
-  have b7 : e7.retItems.length = 5 := by rw [h7.retItems_length, l4]
-  simp only [checkGen, h1.evOk, h2.evOk, h3.evOk, h4.evOk, h5.evOk, h6.evOk, h7.evOk, h8.evOk,
-    a1, a2, a3, a4, a5, a6, a7, a8, b1, b3, b5, b7, beq_self_eq_true, Bool.and_self, if_true]
+      rw [List.map_append, List.map_take, retItems_fst _ r1, retItems_fst _ r3, argItems_take_fst _ v4, a4])
+  have h5 : handed R c3.retItems (c5.argItems.take 5) = true :=
+    handed_of_fst R hR _ _ (by rw [retItems_fst _ r3, argItems_take_fst _ v5, a5])
+  have h6 : handed R c5.retItems (c6.argItems.take 5) = true :=
+    handed_of_fst R hR _ _ (by rw [retItems_fst _ r5, argItems_take_fst _ v6, a6])
+  have h7 : handed R c5.retItems (c7.argItems.take 5) = true :=
+    handed_of_fst R hR _ _ (by rw [retItems_fst _ r5, argItems_take_fst _ v7, a7])
+  have h8 : handed R c7.retItems (c8.argItems.take 5) = true :=
+    handed_of_fst R hR _ _ (by rw [retItems_fst _ r7, argItems_take_fst _ v8, a8])
+  have b1 : c1.retItems.length = 6 := by rw [retItems_length _ r1, l1]
+  have b3 : c3.retItems.length = 5 := by rw [retItems_length _ r3, l3]
+  have b5 : c5.retItems.length = 5 := by rw [retItems_length _ r5, l5]
+  have b7 : c7.retItems.length = 5 := by rw [retItems_length _ r7, l7]
+  simp only [checkGen, k1, k2, k3, k4, k5, k6, k7, k8, h1, h2, h3, h4, h5, h6, h7, h8, b1, b3, b5, b7,
+    beq_self_eq_true, Bool.and_self, if_true]
+
+/-! ### from a predicted call to the recorded call -/
+
+variable {ρ : List Ref} {base : Nat} {rep0 : Int}
+
+theorem EvMatch.evOk_rel0 {se : SEv} {ce : Event (View V)} (h : EvMatch V0 ρ base rep0 se ce) {k : EvKind} {n : Nat}
+    (hs : sevOk k (.rel 0) n se = true) : evOk V0 k base ce = true ∧ ce.rep = rep0 + n := by
+  simp only [sevOk, Bool.and_eq_true, beq_iff_eq, Bool.not_eq_true'] at hs
+  obtain ⟨⟨⟨hk, ht⟩, hr⟩, _⟩ := hs
+  have := h.t
+  rw [ht] at this
+  simp only [TRel, Nat.add_zero] at this
+  refine ⟨by simp [evOk, h.kind, hk, this, h.start], by rw [h.rep, hr]⟩
+
+/-- equal token lists on the analysis side give equal reference lists on the recorded side -/
+theorem wire {toks1 toks2 : List Tok} {xs ys : List Ref} (h1 : tokRefs ρ toks1 xs) (h2 : tokRefs ρ toks2 ys)
+    (e : toks2 = toks1) : ys = xs := by
+  subst e; exact tokRefs_inj h2 h1
+
+theorem entry_tokRefs (cur : List Ref) (h : cur.length = 5) : tokRefs cur entryToks cur := by
+  match cur, h with
+  | [a, b, c, d, e], _ => simp [tokRefs, entryToks]
+
+theorem assign_self : ∀ (rl : List Reg) (xs : List Ref) (regs : Reg → Option Ref), rl.Nodup →
+    rl.map regs = xs.map some → ∀ r, assign regs rl xs r = regs r
+  | [], _, _, _, _, _ => by simp [assign]
+  | _ :: _, [], _, _, h, _ => by simp at h
+  | d :: rl, x :: xs, regs, hnd, h, r => by
+    simp only [List.nodup_cons] at hnd
+    simp only [List.map_cons, List.cons.injEq] at h
+    rw [assign]
+    have hset : ∀ y, setReg regs d (some x) y = regs y := by
+      intro y
+      by_cases e : y = d
+      · subst e; rw [setReg_same]; exact h.1.symm
+      · exact setReg_other _ _ _ _ e
+    rw [assign_self rl xs (setReg regs d (some x)) hnd.2 (by
+      rw [← h.2]; exact List.map_congr_left (fun y _ => hset y)) r]
+    exact hset r
+
+/-- the related pair at the top of the body of `advance`'s loop -/
+theorem genEntry_conc {st : State σ V} (cur : List Ref) (hcur : five.map st.regs = cur.map some)
+    (l0 : cur.length = 5) :
+    Conc cfg.depth V0 cfg.loginit cur st.t st.rep st.trace genEntry st := by
+  refine ⟨by simp [genEntry, l0], ?_, by simp [TRel, genEntry], by simp [genEntry], ?_, ⟨[], by simp, ?_⟩⟩
+  · have hbase : RegRel cur (fun _ => none) st.regs := by intro r tok h; cases h
+    have := RegRel.assign five entryToks cur hbase (entry_tokRefs cur l0)
+    intro r tok hr
+    obtain ⟨x, h1, h2⟩ := this r tok hr
+    rw [assign_self five cur st.regs five_nodup hcur r] at h2
+    exact ⟨x, h1, h2⟩
+  · intro tok i h; simp [genEntry] at h
+  · simp [genEntry]
+
+theorem forall2_eight {α β : Type} {P : α → β → Prop} {a1 a2 a3 a4 a5 a6 a7 a8 : α} {l : List β}
+    (h : List.Forall₂ P [a1, a2, a3, a4, a5, a6, a7, a8] l) :
+    ∃ b1 b2 b3 b4 b5 b6 b7 b8, l = [b1, b2, b3, b4, b5, b6, b7, b8] ∧ P a1 b1 ∧ P a2 b2 ∧ P a3 b3 ∧ P a4 b4 ∧
+      P a5 b5 ∧ P a6 b6 ∧ P a7 b7 ∧ P a8 b8 := by
+  cases h with | cons p1 h =>
+  cases h with | cons p2 h =>
+  cases h with | cons p3 h =>
+  cases h with | cons p4 h =>
+  cases h with | cons p5 h =>
+  cases h with | cons p6 h =>
+  cases h with | cons p7 h =>
+  cases h with | cons p8 h =>
+  cases h
+  exact ⟨_, _, _, _, _, _, _, _, rfl, p1, p2, p3, p4, p5, p6, p7, p8⟩
+
+theorem sevOk_visible {k : EvKind} {t : TVal} {n : Nat} {e : SEv} (li : Bool) (h : sevOk k t n e = true) :
+    visible li e = true := by
+  simp only [sevOk, Bool.and_eq_true, Bool.not_eq_true'] at h
+  simp [visible, h.2]
+
+theorem EvMatch.kind_facts {se : SEv} {ce : Event (View V)} (h : EvMatch V0 ρ base rep0 se ce) {k : EvKind} {t : TVal}
+    {n : Nat} (hs : sevOk k t n se = true) : ce.kind = k := by
+  simp only [sevOk, Bool.and_eq_true, beq_iff_eq] at hs
+  rw [h.kind, hs.1.1.1]
 
 /-! ### one generation -/
 
-theorem five_map_of_ne_misc {regs regs' : Reg → Option Ref} (h : ∀ r, r ≠ Reg.misc → regs' r = regs r) :
-    five.map regs' = five.map regs :=
-  List.map_congr_left (fun x hx => h x (fun e => misc_not_five (e ▸ hx)))
-
-theorem five_map_of_not_mem {regs regs' : Reg → Option Ref} {rets : List Reg}
-    (h : ∀ r, r ∉ rets → regs' r = regs r) (hd : ∀ x ∈ five, x ∉ rets) :
-    five.map regs' = five.map regs :=
-  List.map_congr_left (fun x hx => h x (hd x hx))
-
-theorem execR_eq_execS (sc : Schedule) (s : Stmt) (h : s ≠ .callReset) (st : State σ V) :
-    execR ops cfg sc s st = execS ops cfg s st := by
-  cases s <;> first | rfl | exact absurd rfl h
-
-/-- what one pass through the body of `advance`'s loop does -/
-theorem gen_spec (hR : Respects S ops) {st : State σ V} (g : Good S V0 st) (cur : List Ref)
+/-- what one pass through the body of `advance`'s loop does, for every schedule whose loop body has
+    the right dataflow -/
+theorem gen_spec (hR : Respects S ops) (hS : S.length = 5) (sc : Schedule) (hwf : wfGen sc = true)
+    {st : State σ V} (g : Good cfg.depth S V0 st) (cur : List Ref)
     (hcur : five.map st.regs = cur.map some) (l0 : cur.length = 5) :
-    ∃ (st' : State σ V) (es : List (Event V)) (cur' : List Ref) (out : List (Item V)),
-      execList (execR ops cfg canonical) canonical.advanceGen st = st' ∧ Good S V0 st' ∧
-      st'.trace = st.trace ++ es ∧ st'.t = st.t + 1 ∧ st'.rep = st.rep ∧
+    ∃ (st' : State σ V) (es : List (Event (View V))) (cur' : List Ref) (out : List (Item (View V))),
+      execList (execR ops cfg sc) sc.advanceGen st = st' ∧ Good cfg.depth S V0 st' ∧
+      st'.trace = st.trace ++ es ∧ st'.t = st.t + 1 ∧ st'.rep = st.rep ∧ st'.ngen = st.ngen ∧
       five.map st'.regs = cur'.map some ∧ cur'.length = 5 ∧ out.map Prod.fst = cur' ∧
       es.length = 8 ∧ (∀ e ∈ es, e.rep = st.rep ∧ e.kind ≠ .log .initialize ∧ e.kind ≠ .init) ∧
-      ∀ (R : Item V → Item V → Bool), ReflOnRefs R → ∀ (given : List (Item V)) (rest : List (Event V)),
+      ∀ (R : Item (View V) → Item (View V) → Bool), ReflOnRefs R → ∀ (given : List (Item (View V))) (rest : List (Event (View V))),
         given.map Prod.fst = cur → checkGen R V0 st.t given (es ++ rest) = some (out, rest) := by
-  have hE : execList (execR ops cfg canonical) canonical.advanceGen st =
-      execS ops cfg .tick
-       (execS ops cfg (.log .sselect false (five ++ [.misc]))
-       (execS ops cfg (.call .sselect (five ++ [.misc]) five)
-       (execS ops cfg .newMisc
-       (execS ops cfg (.log .evaluate false (five ++ [.misc]))
-       (execS ops cfg (.call .evaluate (five ++ [.misc]) five)
-       (execS ops cfg .newMisc
-       (execS ops cfg (.log .mate false (.mcfg :: five ++ [.misc]))
-       (execS ops cfg (.call .mate (.mcfg :: five ++ [.misc]) five)
-       (execS ops cfg .newMisc
-       (execS ops cfg (.log .pselect false (.mcfg :: five ++ [.misc]))
-       (execS ops cfg (.call .pselect (five ++ [.misc]) (.mcfg :: five))
-       (execS ops cfg .newMisc st)))))))))))) := rfl
-  -- pselect
-  obtain ⟨s1, n1, q1, g1, tr1, t1, rp1, hm1, ho1⟩ := step_newMisc (ops := ops) (cfg := cfg) g
-  have f1 : five.map s1.regs = cur.map some := (five_map_of_ne_misc ho1).trans hcur
-  obtain ⟨s2, e1, rs1, q2, g2, tr2, t2, rp2, hr2, ho2, hl2, ev1⟩ :=
-    step_call (cfg := cfg) g1 hR .pselect (five ++ [.misc]) (.mcfg :: five) (cur ++ [n1])
-      (by simp only [List.map_append, f1, List.map_cons, List.map_nil, hm1]) mcfg_five_nodup rfl
-  cases rs1 with
-  | nil => simp at hl2
-  | cons m c1 =>
-  have l1 : c1.length = 5 := by simpa [five] using hl2
-  simp only [List.map_cons, List.cons.injEq] at hr2
-  obtain ⟨hmc2, f2⟩ := hr2
-  have hm2 : s2.regs .misc = some n1 := (ho2 .misc (by decide)).trans hm1
-  obtain ⟨s3, e2, q3, g3, tr3, t3, rp3, hr3, ev2⟩ :=
-    step_log (cfg := cfg) g2 hR .pselect false (.mcfg :: five ++ [.misc]) (m :: c1 ++ [n1])
-      (by simp only [List.map_append, List.map_cons, List.map_nil, hmc2, f2, hm2]) rfl
-  -- mate
-  obtain ⟨s4, n4, q4, g4, tr4, t4, rp4, hm4, ho4⟩ := step_newMisc (ops := ops) (cfg := cfg) g3
-  have f4 : five.map s4.regs = c1.map some := by rw [five_map_of_ne_misc ho4, hr3, f2]
-  have hmc4 : s4.regs .mcfg = some m := by rw [ho4 .mcfg (by decide), hr3, hmc2]
-  obtain ⟨s5, e3, c2, q5, g5, tr5, t5, rp5, f5, ho5, l2, ev3⟩ :=
-    step_call (cfg := cfg) g4 hR .mate (.mcfg :: five ++ [.misc]) five (m :: c1 ++ [n4])
-      (by simp only [List.map_append, List.map_cons, List.map_nil, hmc4, f4, hm4]) five_nodup rfl
-  have hmc5 : s5.regs .mcfg = some m := (ho5 .mcfg mcfg_not_five).trans hmc4
-  have hm5 : s5.regs .misc = some n4 := (ho5 .misc misc_not_five).trans hm4
-  obtain ⟨s6, e4, q6, g6, tr6, t6, rp6, hr6, ev4⟩ :=
-    step_log (cfg := cfg) g5 hR .mate false (.mcfg :: five ++ [.misc]) (m :: c2 ++ [n4])
-      (by simp only [List.map_append, List.map_cons, List.map_nil, hmc5, f5, hm5]) rfl
-  -- evaluate
-  obtain ⟨s7, n7, q7, g7, tr7, t7, rp7, hm7, ho7⟩ := step_newMisc (ops := ops) (cfg := cfg) g6
-  have f7 : five.map s7.regs = c2.map some := by rw [five_map_of_ne_misc ho7, hr6, f5]
-  obtain ⟨s8, e5, c3, q8, g8, tr8, t8, rp8, f8, ho8, l3, ev5⟩ :=
-    step_call (cfg := cfg) g7 hR .evaluate (five ++ [.misc]) five (c2 ++ [n7])
-      (by simp only [List.map_append, List.map_cons, List.map_nil, f7, hm7]) five_nodup rfl
-  have hm8 : s8.regs .misc = some n7 := (ho8 .misc misc_not_five).trans hm7
-  obtain ⟨s9, e6, q9, g9, tr9, t9, rp9, hr9, ev6⟩ :=
-    step_log (cfg := cfg) g8 hR .evaluate false (five ++ [.misc]) (c3 ++ [n7])
-      (by simp only [List.map_append, List.map_cons, List.map_nil, f8, hm8]) rfl
-  -- sselect
-  obtain ⟨s10, n10, q10, g10, tr10, t10, rp10, hm10, ho10⟩ := step_newMisc (ops := ops) (cfg := cfg) g9
-  have f10 : five.map s10.regs = c3.map some := by rw [five_map_of_ne_misc ho10, hr9, f8]
-  obtain ⟨s11, e7, c4, q11, g11, tr11, t11, rp11, f11, ho11, l4, ev7⟩ :=
-    step_call (cfg := cfg) g10 hR .sselect (five ++ [.misc]) five (c3 ++ [n10])
-      (by simp only [List.map_append, List.map_cons, List.map_nil, f10, hm10]) five_nodup rfl
-  have hm11 : s11.regs .misc = some n10 := (ho11 .misc misc_not_five).trans hm10
-  obtain ⟨s12, e8, q12, g12, tr12, t12, rp12, hr12, ev8⟩ :=
-    step_log (cfg := cfg) g11 hR .sselect false (five ++ [.misc]) (c4 ++ [n10])
-      (by simp only [List.map_append, List.map_cons, List.map_nil, f11, hm11]) rfl
-  obtain ⟨s13, q13, g13, tr13, t13, rp13, hr13⟩ := step_tick (ops := ops) (cfg := cfg) g12
-  rw [q1, q2, q3, q4, q5, q6, q7, q8, q9, q10, q11, q12, q13] at hE
-  -- all clocks and replicate counters equal those of `st`
-  have T2 : s1.t = st.t := t1
-  have T3 : s2.t = st.t := t2.trans T2
-  have T4 : s3.t = st.t := t3.trans T3
-  have T5 : s4.t = st.t := t4.trans T4
-  have T6 : s5.t = st.t := t5.trans T5
-  have T7 : s6.t = st.t := t6.trans T6
-  have T8 : s7.t = st.t := t7.trans T7
-  have T9 : s8.t = st.t := t8.trans T8
-  have T10 : s9.t = st.t := t9.trans T9
-  have T11 : s10.t = st.t := t10.trans T10
-  have T12 : s11.t = st.t := t11.trans T11
-  have T13 : s12.t = st.t := t12.trans T12
-  have P2 : s1.rep = st.rep := rp1
-  have P3 : s2.rep = st.rep := rp2.trans P2
-  have P4 : s3.rep = st.rep := rp3.trans P3
-  have P5 : s4.rep = st.rep := rp4.trans P4
-  have P6 : s5.rep = st.rep := rp5.trans P5
-  have P7 : s6.rep = st.rep := rp6.trans P6
-  have P8 : s7.rep = st.rep := rp7.trans P7
-  have P9 : s8.rep = st.rep := rp8.trans P8
-  have P10 : s9.rep = st.rep := rp9.trans P9
-  have P11 : s10.rep = st.rep := rp10.trans P10
-  have P12 : s11.rep = st.rep := rp11.trans P11
-  have P13 : s12.rep = st.rep := rp12.trans P12
-  rw [T2, P2] at ev1
-  rw [T3, P3] at ev2
-  rw [T5, P5] at ev3
-  rw [T6, P6] at ev4
-  rw [T8, P8] at ev5
-  rw [T9, P9] at ev6
-  rw [T11, P11] at ev7
-  rw [T12, P12] at ev8
-  have l2' : c2.length = 5 := l2
-  have l3' : c3.length = 5 := l3
-  have l4' : c4.length = 5 := l4
-  refine ⟨s13, [e1, e2, e3, e4, e5, e6, e7, e8], c4, e7.retItems, hE, g13, ?_, ?_, ?_, ?_, l4', ev7.retItems_fst,
-    rfl, ?_, ?_⟩
-  · rw [tr13, tr12, tr11, tr10, tr9, tr8, tr7, tr6, tr5, tr4, tr3, tr2, tr1]
-    simp
-  · rw [t13, T13]
-  · rw [rp13, P13]
-  · rw [hr13, hr12, f11]
-  · intro e he
-    simp only [List.mem_cons, List.not_mem_nil, or_false] at he
-    rcases he with rfl | rfl | rfl | rfl | rfl | rfl | rfl | rfl
-    · exact ⟨ev1.rep, by rw [ev1.kind]; decide, by rw [ev1.kind]; decide⟩
-    · exact ⟨ev2.rep, by rw [ev2.kind]; decide, by rw [ev2.kind]; decide⟩
-    · exact ⟨ev3.rep, by rw [ev3.kind]; decide, by rw [ev3.kind]; decide⟩
-    · exact ⟨ev4.rep, by rw [ev4.kind]; decide, by rw [ev4.kind]; decide⟩
-    · exact ⟨ev5.rep, by rw [ev5.kind]; decide, by rw [ev5.kind]; decide⟩
-    · exact ⟨ev6.rep, by rw [ev6.kind]; decide, by rw [ev6.kind]; decide⟩
-    · exact ⟨ev7.rep, by rw [ev7.kind]; decide, by rw [ev7.kind]; decide⟩
-    · exact ⟨ev8.rep, by rw [ev8.kind]; decide, by rw [ev8.kind]; decide⟩
-  · intro R hRR given rest hgiven
-    exact checkGen_intro R hRR st.t st.rep cur c1 c2 c3 c4 m n1 n4 n7 n10 given hgiven l0 l1 l2' l3' l4'
-      e1 e2 e3 e4 e5 e6 e7 e8 ev1 ev2 ev3 ev4 ev5 ev6 ev7 ev8 rest
+  unfold wfGen at hwf
+  generalize hA : symList (symR sc) sc.advanceGen genEntry = a1 at hwf
+  simp only [Bool.and_eq_true, beq_iff_eq] at hwf
+  obtain ⟨⟨⟨hok, ht⟩, hrep⟩, hm⟩ := hwf
+  cases hout : resolve a1.regs five with
+  | none => simp [hout] at hm
+  | some out =>
+  cases hsg : symGenOK entryToks a1.evs with
+  | none => simp [hout, hsg] at hm
+  | some out' =>
+  simp only [hout, hsg, beq_iff_eq] at hm
+  subst hm
+  -- the eight predicted calls
+  unfold symGenOK at hsg
+  split at hsg
+  · rename_i e1 e2 e3 e4 e5 e6 e7 e8 hevs
+    split at hsg
+    · rename_i hcnd
+      simp only [Option.some.injEq] at hsg
+      simp only [Bool.and_eq_true, beq_iff_eq] at hcnd
+      obtain ⟨⟨⟨⟨⟨⟨⟨⟨⟨⟨⟨⟨⟨⟨⟨⟨⟨⟨⟨s1, A1⟩, s2⟩, A2⟩, s3⟩, A3⟩, s4⟩, A4⟩, s5⟩, A5⟩, s6⟩, A6⟩, s7⟩, A7⟩, s8⟩, A8⟩, L1⟩, L3⟩, L5⟩, L7⟩ := hcnd
+      -- run the analysis alongside the programme
+      have hok' : (symList (symR sc) sc.advanceGen genEntry).ok = true := by rw [hA]; exact hok
+      obtain ⟨ρ', hp, hc, g', hng⟩ := symBlock_sound (cfg := cfg) hR hS sc sc.advanceGen
+        (genEntry_conc (V0 := V0) (cfg := cfg) cur hcur l0) g rfl hok'
+      rw [hA] at hc
+      obtain ⟨ces, htr, hall⟩ := hc.trace
+      have hfil : a1.evs.filter (visible cfg.loginit) = [e1, e2, e3, e4, e5, e6, e7, e8] := by
+        rw [hevs]
+        simp [sevOk_visible cfg.loginit s1, sevOk_visible cfg.loginit s2,
+          sevOk_visible cfg.loginit s3, sevOk_visible cfg.loginit s4, sevOk_visible cfg.loginit s5,
+          sevOk_visible cfg.loginit s6, sevOk_visible cfg.loginit s7, sevOk_visible cfg.loginit s8]
+      rw [hfil] at hall
+      obtain ⟨c1, c2, c3, c4, c5, c6, c7, c8, rfl, m1, m2, m3, m4, m5, m6, m7, m8⟩ := forall2_eight hall
+      obtain ⟨k1, p1⟩ := m1.evOk_rel0 s1
+      obtain ⟨k2, p2⟩ := m2.evOk_rel0 s2
+      obtain ⟨k3, p3⟩ := m3.evOk_rel0 s3
+      obtain ⟨k4, p4⟩ := m4.evOk_rel0 s4
+      obtain ⟨k5, p5⟩ := m5.evOk_rel0 s5
+      obtain ⟨k6, p6⟩ := m6.evOk_rel0 s6
+      obtain ⟨k7, p7⟩ := m7.evOk_rel0 s7
+      obtain ⟨k8, p8⟩ := m8.evOk_rel0 s8
+      have hentry : tokRefs ρ' entryToks cur := tokRefs_prefix hp (entry_tokRefs cur l0)
+      have a1' : c1.args.take 5 = cur := wire hentry (tokRefs_take m1.args 5) A1
+      have a2' : c2.args.take 6 = c1.rets := wire m1.rets (tokRefs_take m2.args 6) A2
+      have a3' : c3.args.take 6 = c1.rets := wire m1.rets (tokRefs_take m3.args 6) A3
+      have a4' : c4.args.take 6 = c1.rets.take 1 ++ c3.rets :=
+        wire (tokRefs_append (tokRefs_take m1.rets 1) m3.rets) (tokRefs_take m4.args 6) A4
+      have a5' : c5.args.take 5 = c3.rets := wire m3.rets (tokRefs_take m5.args 5) A5
+      have a6' : c6.args.take 5 = c5.rets := wire m5.rets (tokRefs_take m6.args 5) A6
+      have a7' : c7.args.take 5 = c5.rets := wire m5.rets (tokRefs_take m7.args 5) A7
+      have a8' : c8.args.take 5 = c7.rets := wire m7.rets (tokRefs_take m8.args 5) A8
+      have l1' : c1.rets.length = 6 := by rw [← tokRefs_length m1.rets, L1]
+      have l3' : c3.rets.length = 5 := by rw [← tokRefs_length m3.rets, L3]
+      have l5' : c5.rets.length = 5 := by rw [← tokRefs_length m5.rets, L5]
+      have l7' : c7.rets.length = 5 := by rw [← tokRefs_length m7.rets, L7]
+      -- the working containers afterwards
+      obtain ⟨cur', hres, hcur'⟩ := resolve_rel hc.regs five out hout
+      have hcur7 : cur' = c7.rets := wire m7.rets hcur' hsg.symm
+      have hT := hc.t
+      rw [ht] at hT
+      have hP := hc.rep
+      rw [hrep] at hP
+      refine ⟨_, [c1, c2, c3, c4, c5, c6, c7, c8], cur', c7.retItems, rfl, g', htr, hT, by simpa using hP, hng,
+        resolve_map _ _ _ hres, by rw [hcur7, l7'], by rw [retItems_fst _ m7.retVals, hcur7], rfl, ?_, ?_⟩
+      · intro e he
+        simp only [List.mem_cons, List.not_mem_nil, or_false] at he
+        rcases he with rfl | rfl | rfl | rfl | rfl | rfl | rfl | rfl
+        · exact ⟨by simpa using p1, by rw [m1.kind_facts s1]; decide, by rw [m1.kind_facts s1]; decide⟩
+        · exact ⟨by simpa using p2, by rw [m2.kind_facts s2]; decide, by rw [m2.kind_facts s2]; decide⟩
+        · exact ⟨by simpa using p3, by rw [m3.kind_facts s3]; decide, by rw [m3.kind_facts s3]; decide⟩
+        · exact ⟨by simpa using p4, by rw [m4.kind_facts s4]; decide, by rw [m4.kind_facts s4]; decide⟩
+        · exact ⟨by simpa using p5, by rw [m5.kind_facts s5]; decide, by rw [m5.kind_facts s5]; decide⟩
+        · exact ⟨by simpa using p6, by rw [m6.kind_facts s6]; decide, by rw [m6.kind_facts s6]; decide⟩
+        · exact ⟨by simpa using p7, by rw [m7.kind_facts s7]; decide, by rw [m7.kind_facts s7]; decide⟩
+        · exact ⟨by simpa using p8, by rw [m8.kind_facts s8]; decide, by rw [m8.kind_facts s8]; decide⟩
+      · intro R hRR given rest hgiven
+        exact checkGen_intro R hRR st.t given cur hgiven c1 c2 c3 c4 c5 c6 c7 c8 k1 k2 k3 k4 k5 k6 k7 k8
+          m1.argVals m2.argVals m3.argVals m4.argVals m5.argVals m6.argVals m7.argVals m8.argVals
+          m1.retVals m3.retVals m5.retVals m7.retVals a1' a2' a3' a4' a5' a6' a7' a8' l1' l3' l5' l7' rest
+    · cases hsg
+  · cases hsg
 
 /-! ### the generation loop -/
 
-theorem gens_spec (hR : Respects S ops) (n : Nat) :
-    ∀ {st : State σ V}, Good S V0 st → ∀ (cur : List Ref), five.map st.regs = cur.map some → cur.length = 5 →
-    ∃ (st' : State σ V) (es : List (Event V)),
-      iter (execList (execR ops cfg canonical) canonical.advanceGen) n st = st' ∧ Good S V0 st' ∧
-      st'.trace = st.trace ++ es ∧ st'.t = st.t + n ∧ st'.rep = st.rep ∧ es.length = 8 * n ∧
+theorem gens_spec (hR : Respects S ops) (hS : S.length = 5) (sc : Schedule) (hwf : wfGen sc = true) (n : Nat) :
+    ∀ {st : State σ V}, Good cfg.depth S V0 st → ∀ (cur : List Ref), five.map st.regs = cur.map some → cur.length = 5 →
+    ∃ (st' : State σ V) (es : List (Event (View V))) (cur' : List Ref),
+      iter (execList (execR ops cfg sc) sc.advanceGen) n st = st' ∧ Good cfg.depth S V0 st' ∧
+      st'.trace = st.trace ++ es ∧ st'.t = st.t + n ∧ st'.rep = st.rep ∧ st'.ngen = st.ngen ∧
+      five.map st'.regs = cur'.map some ∧ cur'.length = 5 ∧ es.length = 8 * n ∧
       (∀ e ∈ es, e.rep = st.rep ∧ e.kind ≠ .log .initialize ∧ e.kind ≠ .init) ∧
-      ∀ (R : Item V → Item V → Bool), ReflOnRefs R → ∀ (given : List (Item V)) (rest : List (Event V)),
+      ∀ (R : Item (View V) → Item (View V) → Bool), ReflOnRefs R → ∀ (given : List (Item (View V))) (rest : List (Event (View V))),
         given.map Prod.fst = cur → checkGens R V0 n st.t given (es ++ rest) = some rest := by
   induction n with
   | zero =>
-    intro st g cur _ _
-    exact ⟨st, [], rfl, g, by simp, rfl, rfl, rfl, by simp, fun R _ given rest _ => by simp [checkGens]⟩
+    intro st g cur hcur l0
+    exact ⟨st, [], cur, rfl, g, by simp, rfl, rfl, rfl, hcur, l0, rfl, by simp,
+      fun R _ given rest _ => by simp [checkGens]⟩
   | succ n ih =>
     intro st g cur hcur l0
-    obtain ⟨s1, es1, cur1, out1, q1, g1, tr1, t1, rp1, f1, l1, ho1, len1, all1, chk1⟩ :=
-      gen_spec (cfg := cfg) hR g cur hcur l0
-    obtain ⟨s2, es2, q2, g2, tr2, t2, rp2, len2, all2, chk2⟩ := ih g1 cur1 f1 l1
-    refine ⟨s2, es1 ++ es2, ?_, g2, ?_, ?_, ?_, ?_, ?_, ?_⟩
-    · show iter _ n (execList (execR ops cfg canonical) canonical.advanceGen st) = s2
+    obtain ⟨s1, es1, cur1, out1, q1, g1, tr1, t1, rp1, ng1, f1, l1, ho1, len1, all1, chk1⟩ :=
+      gen_spec (cfg := cfg) hR hS sc hwf g cur hcur l0
+    obtain ⟨s2, es2, cur2, q2, g2, tr2, t2, rp2, ng2, f2, l2, len2, all2, chk2⟩ := ih g1 cur1 f1 l1
+    refine ⟨s2, es1 ++ es2, cur2, ?_, g2, ?_, ?_, ?_, ?_, f2, l2, ?_, ?_, ?_⟩
+    · show iter _ n (execList (execR ops cfg sc) sc.advanceGen st) = s2
       rw [q1, q2]
     · rw [tr2, tr1, List.append_assoc]
     · rw [t2, t1]; omega
     · rw [rp2, rp1]
+    · rw [ng2, ng1]
     · rw [List.length_append, len1, len2]; omega
     · intro e he
       rcases List.mem_append.mp he with h | h
@@ -322,202 +292,6 @@ theorem gens_spec (hR : Respects S ops) (n : Nat) :
       have := chk2 R hRR out1 rest ho1
       rw [t1] at this
       exact this
-
-/-! ### `reset` -/
-
-theorem step_copy {st : State σ V} (g : Good S V0 st) (dst : Reg) (i : Nat) (hi : i < S.length) :
-    ∃ (st' : State σ V) (v : V), execS ops cfg (.copyStart dst i) st = st' ∧ Good S V0 st' ∧
-      st'.trace = st.trace ∧ st'.t = st.t ∧ st'.rep = st.rep ∧ st'.regs dst = some st.heap.length ∧
-      (∀ r, r ≠ dst → st'.regs r = st.regs r) ∧ st'.heap = st.heap ++ [v] ∧ V0[i]? = some (some v) := by
-  obtain ⟨v, hv, q⟩ := execS_copyStart (ops := ops) (cfg := cfg) g dst i hi
-  refine ⟨_, v, q, g.alloc v dst, rfl, rfl, rfl, ?_, ?_, rfl, hv⟩
-  · exact setReg_same st.regs dst (some st.heap.length)
-  · intro r hr; exact setReg_other st.regs dst r (some st.heap.length) hr
-
-theorem reset_spec (hS : S.length = 5) {st : State σ V} (g : Good S V0 st) :
-    ∃ (st' : State σ V) (cur : List Ref), execList (execS ops cfg) canonical.reset st = st' ∧ Good S V0 st' ∧
-      st'.trace = st.trace ∧ st'.t = 0 ∧ st'.rep = st.rep ∧ five.map st'.regs = cur.map some ∧
-      cur.length = 5 ∧ vals st'.heap cur = V0 := by
-  have hE : execList (execS ops cfg) canonical.reset st =
-      execS ops cfg .resetT (execS ops cfg (.copyStart .gmod 4) (execS ops cfg (.copyStart .bval 3)
-        (execS ops cfg (.copyStart .pheno 2) (execS ops cfg (.copyStart .geno 1)
-          (execS ops cfg (.copyStart .genome 0) st))))) := rfl
-  obtain ⟨s1, v0, q1, g1, tr1, _, rp1, r1, o1, h1, w0⟩ := step_copy (ops := ops) (cfg := cfg) g .genome 0 (by omega)
-  obtain ⟨s2, v1, q2, g2, tr2, _, rp2, r2, o2, h2, w1⟩ := step_copy (ops := ops) (cfg := cfg) g1 .geno 1 (by omega)
-  obtain ⟨s3, v2, q3, g3, tr3, _, rp3, r3, o3, h3, w2⟩ := step_copy (ops := ops) (cfg := cfg) g2 .pheno 2 (by omega)
-  obtain ⟨s4, v3, q4, g4, tr4, _, rp4, r4, o4, h4, w3⟩ := step_copy (ops := ops) (cfg := cfg) g3 .bval 3 (by omega)
-  obtain ⟨s5, v4, q5, g5, tr5, _, rp5, r5, o5, h5, w4⟩ := step_copy (ops := ops) (cfg := cfg) g4 .gmod 4 (by omega)
-  rw [q1, q2, q3, q4, q5, execS_resetT g5.nbad] at hE
-  have hV0 : V0 = [some v0, some v1, some v2, some v3, some v4] := by
-    have hl : V0.length = 5 := by rw [← g.svals, vals_length, hS]
-    match V0, hl, w0, w1, w2, w3, w4 with
-    | [a, b, c, d, e], _, w0, w1, w2, w3, w4 =>
-      simp only [List.getElem?_cons_zero, List.getElem?_cons_succ, Option.some.injEq] at w0 w1 w2 w3 w4
-      subst w0 w1 w2 w3 w4
-      rfl
-  have hheap : s5.heap = st.heap ++ [v0, v1, v2, v3, v4] := by
-    rw [h5, h4, h3, h2, h1]; simp
-  refine ⟨_, [st.heap.length, st.heap.length + 1, st.heap.length + 2, st.heap.length + 3, st.heap.length + 4],
-    hE, g5.resetT, ?_, rfl, ?_, ?_, rfl, ?_⟩
-  · show s5.trace = st.trace
-    rw [tr5, tr4, tr3, tr2, tr1]
-  · show s5.rep = st.rep
-    rw [rp5, rp4, rp3, rp2, rp1]
-  · show five.map s5.regs = _
-    have e1 : s5.regs .genome = some st.heap.length := by
-      rw [o5 _ (by decide), o4 _ (by decide), o3 _ (by decide), o2 _ (by decide), r1]
-    have e2 : s5.regs .geno = some (st.heap.length + 1) := by
-      rw [o5 _ (by decide), o4 _ (by decide), o3 _ (by decide), r2, h1]; simp
-    have e3 : s5.regs .pheno = some (st.heap.length + 2) := by
-      rw [o5 _ (by decide), o4 _ (by decide), r3, h2, h1]; simp
-    have e4 : s5.regs .bval = some (st.heap.length + 3) := by
-      rw [o5 _ (by decide), r4, h3, h2, h1]; simp
-    have e5 : s5.regs .gmod = some (st.heap.length + 4) := by
-      rw [r5, h4, h3, h2, h1]; simp
-    simp [five, e1, e2, e3, e4, e5]
-  · show vals s5.heap _ = V0
-    rw [hheap, hV0]
-    simp [vals]
-
-/-! ### one replicate -/
-
-theorem Good.held_valid {st : State σ V} (g : Good S V0 st) {rl : List Reg} {cur : List Ref}
-    (h : rl.map st.regs = cur.map some) : ∀ a ∈ cur, a < st.heap.length := by
-  intro a ha
-  have : some a ∈ rl.map st.regs := by rw [h]; exact List.mem_map.mpr ⟨a, ha, rfl⟩
-  obtain ⟨r, _, hr⟩ := List.mem_map.mp this
-  exact (g.regs r a hr).1
-
-theorem step_newMisc' {st : State σ V} (g : Good S V0 st) :
-    ∃ st' n, execS ops cfg .newMisc st = st' ∧ Good S V0 st' ∧ st'.trace = st.trace ∧ st'.t = st.t ∧
-      st'.rep = st.rep ∧ st'.regs .misc = some n ∧ (∀ r, r ≠ Reg.misc → st'.regs r = st.regs r) ∧
-      (∀ rs : List Ref, (∀ a ∈ rs, a < st.heap.length) → vals st'.heap rs = vals st.heap rs) := by
-  refine ⟨_, st.heap.length, execS_newMisc g.nbad, g.alloc _ _, rfl, rfl, rfl, ?_, ?_, ?_⟩
-  · exact setReg_same st.regs Reg.misc (some st.heap.length)
-  · intro r hr; exact setReg_other st.regs Reg.misc r (some st.heap.length) hr
-  · intro rs hrs; exact vals_grow _ _ _ hrs
-
-theorem step_call' {st : State σ V} (g : Good S V0 st) (hR : Respects S ops) (k : OpK)
-    (args rets : List Reg) (as : List Ref) (hres : args.map st.regs = as.map some)
-    (hnd : rets.Nodup) (har : rets.length = arity k) :
-    ∃ st' e rs, execS ops cfg (.call k args rets) st = st' ∧ Good S V0 st' ∧
-      st'.trace = st.trace ++ [e] ∧ st'.t = st.t ∧ st'.rep = st.rep ∧
-      rets.map st'.regs = rs.map some ∧ (∀ r, r ∉ rets → st'.regs r = st.regs r) ∧
-      rs.length = rets.length ∧ IsEv V0 e (.op k) st.t st.rep as rs ∧ e.argVals = vals st.heap as := by
-  have hres' := resolve_some _ _ _ hres
-  have has := g.args_ok hres'
-  obtain ⟨_, _, _, h4⟩ := hR.op k st.ost st.heap as st.t cfg.tmax g.svalid has
-  have hlen : (ops.op k st.ost st.heap as st.t cfg.tmax).2.2.length = rets.length := by rw [h4, har]
-  refine ⟨_, callEvent ops cfg k as st, (ops.op k st.ost st.heap as st.t cfg.tmax).2.2,
-    execS_call g.nbad k args rets as hres' hlen, g.call hR k rets as has, rfl, rfl, rfl, ?_, ?_, hlen, ?_, rfl⟩
-  · exact map_assign_same _ _ _ hnd hlen.symm
-  · intro r hr; exact assign_other r _ _ _ hr
-  · exact ⟨rfl, rfl, rfl, g.startVals, rfl, vals_length _ _, rfl, vals_length _ _⟩
-
-theorem execE_callReset {st : State σ V} (hb : st.bad = false) :
-    execE ops cfg canonical .callReset st = execList (execS ops cfg) canonical.reset st := by
-  simp [execE, execR, hb]
-
-theorem execE_callAdvance {st : State σ V} (hb : st.bad = false) :
-    execE ops cfg canonical .callAdvance st =
-      iter (execList (execR ops cfg canonical) canonical.advanceGen) cfg.ngen st := by
-  simp [execE, advance, hb, canonical, execList]
-
-/-- number of events of one replicate -/
-def repLen (loginit : Bool) (ngen : Nat) : Nat := 1 + (if loginit then 1 else 0) + 8 * ngen
-
-theorem rep_spec (hS : S.length = 5) (hR : Respects S ops) {st : State σ V} (g : Good S V0 st) :
-    ∃ (st' : State σ V) (es : List (Event V)),
-      execList (execE ops cfg canonical) canonical.evolveRep st = st' ∧ Good S V0 st' ∧
-      st'.trace = st.trace ++ es ∧ st'.rep = st.rep + 1 ∧ es.length = repLen cfg.loginit cfg.ngen ∧
-      (∀ e ∈ es, e.rep = st.rep + 1 ∧ (cfg.loginit = false → e.kind ≠ .log .initialize) ∧ e.kind ≠ .init) ∧
-      ∀ (R : Item V → Item V → Bool), ReflOnRefs R → ∀ (rest : List (Event V)),
-        checkRep R V0 cfg.loginit cfg.ngen (es ++ rest) = some rest := by
-  have hE : execList (execE ops cfg canonical) canonical.evolveRep st =
-      execE ops cfg canonical .callAdvance
-       (execS ops cfg .tick
-       (execS ops cfg (.log .initialize true (five ++ [.misc]))
-       (execS ops cfg (.call .evaluate (five ++ [.misc]) five)
-       (execS ops cfg .newMisc
-       (execE ops cfg canonical .callReset
-       (execS ops cfg .incRep st)))))) := rfl
-  rw [execS_incRep g.nbad] at hE
-  have g0 := g.incRep
-  rw [execE_callReset g0.nbad] at hE
-  obtain ⟨s1, cur, q1, g1, tr1, t1, rp1, f1, l0, hv1⟩ := reset_spec (ops := ops) (cfg := cfg) hS g0
-  obtain ⟨s2, n2, q2, g2, tr2, t2, rp2, hm2, ho2, hvals2⟩ := step_newMisc' (ops := ops) (cfg := cfg) g1
-  have f2 : five.map s2.regs = cur.map some := (five_map_of_ne_misc ho2).trans f1
-  obtain ⟨s3, e0, c0, q3, g3, tr3, t3, rp3, f3, ho3, lc0, ev0, av0⟩ :=
-    step_call' (cfg := cfg) g2 hR .evaluate (five ++ [.misc]) five (cur ++ [n2])
-      (by simp only [List.map_append, List.map_cons, List.map_nil, f2, hm2]) five_nodup rfl
-  have lc0' : c0.length = 5 := lc0
-  have hm3 : s3.regs .misc = some n2 := (ho3 .misc misc_not_five).trans hm2
-  have T2 : s2.t = 0 := t2.trans t1
-  have T3 : s3.t = 0 := t3.trans T2
-  have P1 : s1.rep = st.rep + 1 := rp1
-  have P2 : s2.rep = st.rep + 1 := rp2.trans P1
-  have P3 : s3.rep = st.rep + 1 := rp3.trans P2
-  rw [T2, P2] at ev0
-  have hav : e0.argVals.take 5 = V0 := by
-    rw [av0, vals_append, List.take_left' (by rw [vals_length, l0]), hvals2 cur (g1.held_valid f1), hv1]
-  have hV0len : V0.length = 5 := by rw [← g.svals, vals_length, hS]
-  have head_ok : (evOk V0 (.op .evaluate) 0 e0 && e0.argVals.take 5 == V0 && e0.retItems.length == 5) = true := by
-    simp [ev0.evOk, hav, ev0.retItems_length, lc0']
-  rw [q1, q2, q3] at hE
-  cases hli : cfg.loginit with
-  | true =>
-    obtain ⟨s4, e1, q4, g4, tr4, t4, rp4, hr4, ev1⟩ :=
-      step_log (cfg := cfg) g3 hR .initialize true (five ++ [.misc]) (c0 ++ [n2])
-        (by simp only [List.map_append, List.map_cons, List.map_nil, f3, hm3]) (by simp [hli])
-    rw [T3, P3] at ev1
-    obtain ⟨s5, q5, g5, tr5, t5, rp5, hr5⟩ := step_tick (ops := ops) (cfg := cfg) g4
-    have f5 : five.map s5.regs = c0.map some := by rw [hr5, hr4, f3]
-    have T5 : s5.t = 1 := by rw [t5, t4, T3]
-    have P5 : s5.rep = st.rep + 1 := by rw [rp5, rp4, P3]
-    obtain ⟨s6, es, q6, g6, tr6, _, rp6, len6, all6, chk6⟩ := gens_spec (cfg := cfg) hR cfg.ngen g5 c0 f5 lc0'
-    rw [q4, q5, execE_callAdvance g5.nbad, q6] at hE
-    refine ⟨s6, e0 :: e1 :: es, hE, g6, ?_, ?_, ?_, ?_, ?_⟩
-    · rw [tr6, tr5, tr4, tr3, tr2, tr1]; simp
-    · rw [rp6, P5]
-    · simp [repLen, len6]; omega
-    · intro e he
-      simp only [List.mem_cons] at he
-      rcases he with rfl | rfl | he
-      · exact ⟨ev0.rep, fun h => by simp at h, by rw [ev0.kind]; decide⟩
-      · exact ⟨ev1.rep, fun h => by simp at h, by rw [ev1.kind]; decide⟩
-      · have := all6 e he
-        rw [P5] at this
-        exact ⟨this.1, fun _ => this.2.1, this.2.2⟩
-    · intro R hRR rest
-      have hh : handed R e0.retItems (e1.argItems.take 5) = true :=
-        handed_of_fst R hRR _ _ (by rw [ev0.retItems_fst, ev1.argItems_take, take_append_one _ _ _ lc0'])
-      have := chk6 R hRR e0.retItems rest ev0.retItems_fst
-      rw [T5] at this
-      simp only [List.cons_append, checkRep, head_ok, if_true, ev1.evOk, hh, Bool.and_self, this]
-  | false =>
-    rw [execS_log_off _ _ hli] at hE
-    obtain ⟨s5, q5, g5, tr5, t5, rp5, hr5⟩ := step_tick (ops := ops) (cfg := cfg) g3
-    have f5 : five.map s5.regs = c0.map some := by rw [hr5, f3]
-    have T5 : s5.t = 1 := by rw [t5, T3]
-    have P5 : s5.rep = st.rep + 1 := by rw [rp5, P3]
-    obtain ⟨s6, es, q6, g6, tr6, _, rp6, len6, all6, chk6⟩ := gens_spec (cfg := cfg) hR cfg.ngen g5 c0 f5 lc0'
-    rw [q5, execE_callAdvance g5.nbad, q6] at hE
-    refine ⟨s6, e0 :: es, hE, g6, ?_, ?_, ?_, ?_, ?_⟩
-    · rw [tr6, tr5, tr3, tr2, tr1]; simp
-    · rw [rp6, P5]
-    · simp [repLen, len6]; omega
-    · intro e he
-      simp only [List.mem_cons] at he
-      rcases he with rfl | he
-      · exact ⟨ev0.rep, fun _ => by rw [ev0.kind]; decide, by rw [ev0.kind]; decide⟩
-      · have := all6 e he
-        rw [P5] at this
-        exact ⟨this.1, fun _ => this.2.1, this.2.2⟩
-    · intro R hRR rest
-      have := chk6 R hRR e0.retItems rest ev0.retItems_fst
-      rw [T5] at this
-      simp only [List.cons_append, checkRep, head_ok, if_true, this]
-      simp
 
 end
 end Program
